@@ -43,6 +43,8 @@ def ev(tree, env):
         return env[n]
     if k == "neg":
         return -ev(tree[1], env)
+    if k == "past":
+        return env["__past__"](tree[1], tree[2])
     if k == "pow":
         return ev(tree[1], env) ** tree[2]
     if k == "call":
@@ -65,6 +67,8 @@ def free_vars(tree, out=None):
         out.add(tree[1])
     elif tree[0] in ("num",):
         pass
+    elif tree[0] == "past":
+        out.add(tree[1])
     elif tree[0] == "pow":
         free_vars(tree[1], out)
     elif tree[0] == "call":
@@ -91,6 +95,8 @@ def to_str(tree, style=0, parent=0, right=False):
         return tree[1]
     if k == "call":
         return f"{tree[1]}({(',' + sp).join(to_str(a, style) for a in tree[2:])})"
+    if k == "past":
+        return f"past({tree[1]},{sp}{float(tree[2])!r})"
     if style == 3:
         if k == "neg":
             return f"(-{to_str(tree[1], style)})"
@@ -332,6 +338,8 @@ def spec_rhs(model, y, params=None, hist=None, t=0.0, edge_now=None, ext=None):
         for v, (vt, d) in op["vars"].items():
             if env.get(v) is None and vt in ("state", "output") and not any(l == v for l, _, _ in op["eqs"]):
                 env[v] = val_of(f"{p}/{o}/{v}")
+        if hist is not None:
+            env["__past__"] = (lambda p_, o_: (lambda v_, tau_: hist(t - tau_, f"{p_}/{o_}/{v_}")))(p, o)
         # algebraic equations may depend on one another: iterate in dependency order
         alg = [(l, tr) for l, k, tr in op["eqs"] if k == "alg"]
         todo = list(alg)
@@ -341,7 +349,7 @@ def spec_rhs(model, y, params=None, hist=None, t=0.0, edge_now=None, ext=None):
             if g2 > 1000:
                 raise RuntimeError("cyclic algebraic equations")
             l, tr = todo.pop(0)
-            if any(env.get(fv) is None and fv not in ("pi", "E", "t") for fv in free_vars(tr)):
+            if any(env.get(fv) is None and fv not in ("pi", "E", "t") for fv in free_vars(tr) if not fv.startswith("__")):
                 todo.append((l, tr))
                 continue
             env[l] = ev(tr, {**env, "t": t})
